@@ -15,20 +15,43 @@ type indSpec struct {
 	nonlin  bool // nonlinear real arithmetic in the scaling check: smaller C18 grid
 	c15     bool // has a documented range / ordering / non-negativity
 	noDeg   bool // no homogeneity degree tabulated
+	sorted3 bool // documented constraint cfg[0] <= cfg[1] <= cfg[2]
+	depMinP int  // smallest period at which outputs depend on the newest input (default 1)
+	qDn, qP int  // quick-tier overrides of the dn / period bounds (0 = none)
+	tDn, tP int  // thorough-tier overrides
 }
 
 var indSpecs = []indSpec{
 	{name: "Sma", nper: 1, nin: 1}, {name: "Ema", nper: 1, nin: 1}, {name: "Macd", nper: 3, nin: 1, ordered: true}, {name: "Atr", nper: 1, nin: 3, c15: true},
 	// trend A
-	{name: "Apo", nper: 2, nin: 1, ordered: true}, {name: "Aroon", nper: 1, nin: 2, heavy: true, c15: true}, {name: "Bop", nper: 0, nin: 4, c15: true},
+	{name: "Apo", nper: 2, nin: 1, ordered: true}, {name: "Aroon", nper: 1, nin: 2, heavy: true, c15: true, depMinP: 2, qDn: 3, tDn: 4}, {name: "Bop", nper: 0, nin: 4, c15: true},
 	{name: "Cci", nper: 1, nin: 3, minP: 2}, {name: "Dema", nper: 2, nin: 1}, {name: "EnvelopeSma", nper: 1, nin: 1, c15: true}, {name: "EnvelopeEma", nper: 1, nin: 1, c15: true},
-	{name: "Hma", nper: 1, nin: 1}, {name: "Kama", nper: 3, nin: 1, nonlin: true}, {name: "Kdj", nper: 3, nin: 3, heavy: true}, {name: "MassIndex", nper: 3, nin: 2},
+	{name: "Hma", nper: 1, nin: 1}, {name: "Kama", nper: 3, nin: 1, nonlin: true}, {name: "Kdj", nper: 3, nin: 3, heavy: true, qDn: 1, tDn: 2}, {name: "MassIndex", nper: 3, nin: 2},
 	// trend B
 	{name: "Mls", nper: 1, nin: 2, minP: 2, nonlin: true}, {name: "Mlr", nper: 1, nin: 2, minP: 2, nonlin: true},
 	{name: "MovingMax", nper: 1, nin: 1, heavy: true, c15: true}, {name: "MovingMin", nper: 1, nin: 1, heavy: true, c15: true}, {name: "MovingSum", nper: 1, nin: 1},
 	{name: "Rma", nper: 1, nin: 1}, {name: "Smma", nper: 1, nin: 1}, {name: "Tema", nper: 3, nin: 1}, {name: "Trima", nper: 1, nin: 1, minP: 2},
 	{name: "Trix", nper: 1, nin: 1}, {name: "Tsi", nper: 2, nin: 1, nonlin: true}, {name: "TypicalPrice", nper: 0, nin: 3}, {name: "WeightedClose", nper: 0, nin: 3},
 	{name: "Vwma", nper: 1, nin: 2}, {name: "Wma", nper: 1, nin: 1},
+	// momentum
+	{name: "AwesomeOscillator", nper: 2, nin: 2, ordered: true}, {name: "ChaikinOscillator", nper: 2, nin: 4, ordered: true},
+	{name: "IchimokuCloud", nper: 3, nin: 3, heavy: true, sorted3: true}, {name: "Ppo", nper: 3, nin: 1, ordered: true, nonlin: true}, {name: "Pvo", nper: 3, nin: 1, ordered: true, nonlin: true},
+	{name: "Qstick", nper: 1, nin: 2}, {name: "Rsi", nper: 1, nin: 1, c15: true, nonlin: true},
+	{name: "StochasticOscillator", nper: 2, nin: 3, heavy: true, c15: true}, {name: "StochasticRsi", nper: 1, nin: 1, heavy: true, c15: true, minP: 2, nonlin: true},
+	{name: "WilliamsR", nper: 1, nin: 3, heavy: true, c15: true},
+	// volume
+	{name: "Mfm", nper: 0, nin: 3, c15: true}, {name: "Mfv", nper: 0, nin: 4}, {name: "Ad", nper: 0, nin: 4}, {name: "Cmf", nper: 1, nin: 4, c15: true},
+	{name: "Emv", nper: 1, nin: 3, nonlin: true}, {name: "Fi", nper: 1, nin: 2}, {name: "Mfi", nper: 1, nin: 4, c15: true, nonlin: true, qDn: 2, qP: 2, tDn: 2, tP: 3}, {name: "Nvi", nper: 0, nin: 2},
+	{name: "Obv", nper: 0, nin: 2}, {name: "Vpt", nper: 0, nin: 2, nonlin: true}, {name: "Vwap", nper: 1, nin: 2},
+	// volatility
+	{name: "AccelerationBands", nper: 1, nin: 3, c15: true, nonlin: true, qP: 2, qDn: 2, tP: 3, tDn: 3},
+	{name: "BollingerBands", nper: 1, nin: 1, c15: true, nonlin: true, qP: 2, qDn: 1, tP: 3, tDn: 2},
+	{name: "BollingerBandWidth", nper: 1, nin: 1, c15: true, nonlin: true, qP: 2, qDn: 1, tP: 3, tDn: 2, depMinP: 2},
+	{name: "MovingStd", nper: 1, nin: 1, c15: true, nonlin: true, qP: 2, qDn: 2, tP: 3, tDn: 2},
+	{name: "PercentB", nper: 1, nin: 1, minP: 2, nonlin: true, qP: 2, qDn: 1, tP: 3, tDn: 2},
+	{name: "DonchianChannel", nper: 1, nin: 1, heavy: true, c15: true}, {name: "KeltnerChannel", nper: 1, nin: 3, c15: true},
+	{name: "ChandelierExit", nper: 1, nin: 3, heavy: true, tDn: 2}, {name: "Po", nper: 1, nin: 3, heavy: true, minP: 2, nonlin: true, qDn: 1, tP: 3, tDn: 2},
+	{name: "SuperTrend", nper: 1, nin: 3}, {name: "UlcerIndex", nper: 1, nin: 1, heavy: true, c15: true, nonlin: true, qP: 1, tP: 2, tDn: 1},
 }
 
 // configs enumerates period configurations with all periods in [minP, maxP].
@@ -58,7 +81,7 @@ func (s indSpec) configs(maxP int) [][3]int {
 		for a := lo; a <= maxP; a++ {
 			for b := lo; b <= maxP; b++ {
 				for c := lo; c <= maxP; c++ {
-					if s.ordered && a > b {
+					if s.ordered && a > b || s.sorted3 && (a > b || b > c) {
 						continue
 					}
 					// thin the cube: keep configurations where alignment amounts differ pairwise
@@ -76,20 +99,37 @@ func (s indSpec) configs(maxP int) [][3]int {
 type indGridOpt struct {
 	maxP, heavyP int // period bounds (heavy: search-tree based)
 	dn, heavyDn  int // inputs beyond the warm-up
+	thorough     bool
 }
 
 func indOpts(tier string) indGridOpt {
 	if tier == "thorough" {
-		return indGridOpt{maxP: 4, heavyP: 3, dn: 5, heavyDn: 3}
+		return indGridOpt{maxP: 4, heavyP: 3, dn: 5, heavyDn: 3, thorough: true}
 	}
 	return indGridOpt{maxP: 3, heavyP: 2, dn: 3, heavyDn: 2}
 }
 
 func (s indSpec) lim(o indGridOpt) (int, int) {
+	p, d := o.maxP, o.dn
 	if s.heavy {
-		return o.heavyP, o.heavyDn
+		p, d = o.heavyP, o.heavyDn
 	}
-	return o.maxP, o.dn
+	if o.thorough {
+		if s.tDn > 0 {
+			d = s.tDn
+		}
+		if s.tP > 0 {
+			p = s.tP
+		}
+	} else {
+		if s.qDn > 0 {
+			d = s.qDn
+		}
+		if s.qP > 0 {
+			p = s.qP
+		}
+	}
+	return p, d
 }
 
 func csi(h string, s indSpec, cfg [3]int, rest ...int) sym.CaseSpec {
@@ -170,8 +210,14 @@ func init() {
 						out = append(out, csi("H_C02", s, cfg, n))
 					}
 					dd := 2
-					if s.heavy {
+					if s.heavy || s.nonlin && tier != "thorough" {
 						dd = 1
+					}
+					if s.ordered && cfg[0] == cfg[1] || cfg[0] < s.depMinP {
+						continue // fast == slow / window of one: the documented value is constant
+					}
+					if (s.name == "Mls" || s.name == "Mlr") && cfg[0] > 2 && tier != "thorough" {
+						continue // nonlinear satisfiability query beyond the quick time-out
 					}
 					out = append(out, csi("H_C02_Dep", s, cfg, dd))
 				}
